@@ -99,6 +99,8 @@ fn main() {
                 "C04" => props::c04::run(&ctx, &mut rep),
                 "C05" => props::c05::run(&ctx, &mut rep),
                 "C06" => props::c06::run(&ctx, &mut rep),
+                "C07" => props::c07::run(&ctx, &mut rep),
+                "C08" => props::c08::run(&ctx, &mut rep),
                 other => {
                     eprintln!("unknown property {other}");
                     std::process::exit(2);
